@@ -13,16 +13,16 @@
          run tys p = Ok g ->              (* no builder call raises *)
          valid {| v_tys := tys; v_main := g; v_subs := [] |} = true.
 
-   For builder calls outside the model (Function/Module/Cfg/Conditional/TailLoop roots and statements, call /\
+   Third pass: the same for the extended language of model/Builder2.v (TailLoop, Conditional, insert_*, CallIndirect), 15 of
+   the 18 rules; fourth pass: all 18 (C01_builder2_valid, under wf_prog2 with liveness-aware premises), and the third
+   model model/Builder3.v (functions, modules, control-flow graphs, function constants): conservative over the second,
+   rules 0 and 6 for all its programs.  For the rules not proved for the third language, and for the tracked builder,
+   `valid` is evaluated by the monitor on the implementation's own document for every generated program.
 
-   load_function, CallIndirect, insert_*, tracked builder) `valid` is evaluated by the monitor on the implementation's
-   own document for every generated program.
-
-   `run` is the builder model of model/Builder.v (programs over Dfg / add_op / add / extend / load /\
-
-   add_nested / add_state_order / set_outputs with non-local wires, any nesting depth); it is tied to
-   hugr-py by the correspondence `run prog == the document the real builders serialise` on generated
-   programs (run/C01Run.v), and the premise wf_prog is evaluated on each of those programs. *)
+   `run` is the builder model of model/Builder.v (programs over Dfg / add_op / add / extend / load /
+   add_nested / add_state_order / set_outputs with non-local wires, any nesting depth); `run2` and `run3` / `run3s` are the
+   interpreters of the wider models.  Each is tied to hugr-py by the correspondence `run prog == the document the real
+   builders serialise` on generated programs (run/C01Run.v), and the premises are evaluated on each in-model program. *)
 From Coq Require Import NArith List Bool.
 Import ListNotations.
 From HV Require Import lib.Harness model.Validity model.Builder spec.BuilderS proofs.BuilderP proofs.BuilderExtP
